@@ -187,11 +187,15 @@ func (s *Set) SMove(key1, key2 string, item []byte) (bool, error) {
 		return false, errors.New("key2 is not exists")
 	}
 
+	if !s.SIsMember(key1, item) {
+		return false, nil
+	}
+
+	delete(s.M[key1], string(item))
+
 	if _, ok := s.M[key2][string(item)]; !ok {
 		s.SAdd(key2, item)
 	}
-
-	s.SRem(key1, item)
 
 	return true, nil
 }
